@@ -133,7 +133,12 @@ func (t *TCCResourceManager) BranchCommit(ctx context.Context, branchResource rm
 		tccResource, _ = resource.(*TCCResource)
 	}
 
-	businessActionContext := t.getBusinessActionContext(branchResource.Xid, branchResource.BranchId, branchResource.ResourceId, branchResource.ApplicationData)
+	businessActionContext, err := t.businessActionContextOf(branchResource)
+	if err != nil {
+		// the application data cannot be read: the user method is not called and the failure is
+		// reported to the tc server (as the java client does) instead of panicking in the processor
+		return branch.BranchStatusPhasetwoCommitFailedRetryable, err
+	}
 
 	// to set up the fence phase
 	ctx = tm.InitSeataContext(ctx)
@@ -141,11 +146,22 @@ func (t *TCCResourceManager) BranchCommit(ctx context.Context, branchResource rm
 	tm.SetFencePhase(ctx, enum.FencePhaseCommit)
 	tm.SetBusinessActionContext(ctx, businessActionContext)
 
-	_, err := tccResource.TwoPhaseAction.Commit(ctx, businessActionContext)
+	_, err = tccResource.TwoPhaseAction.Commit(ctx, businessActionContext)
 	if err != nil {
 		return branch.BranchStatusPhasetwoCommitFailedRetryable, err
 	}
 	return branch.BranchStatusPhasetwoCommitted, err
+}
+
+// businessActionContextOf is getBusinessActionContext with its panics on malformed application data
+// (not JSON, or an actionContext that is not an object) turned into an error
+func (t *TCCResourceManager) businessActionContextOf(r rm.BranchResource) (bac *tm.BusinessActionContext, err error) {
+	defer func() {
+		if p := recover(); p != nil {
+			err = fmt.Errorf("malformed application data of branch %d, xid %s: %v", r.BranchId, r.Xid, p)
+		}
+	}()
+	return t.getBusinessActionContext(r.Xid, r.BranchId, r.ResourceId, r.ApplicationData), nil
 }
 
 func (t *TCCResourceManager) getBusinessActionContext(xid string, branchID int64, resourceID string, applicationData []byte) *tm.BusinessActionContext {
@@ -178,7 +194,12 @@ func (t *TCCResourceManager) BranchRollback(ctx context.Context, branchResource 
 		tccResource, _ = resource.(*TCCResource)
 	}
 
-	businessActionContext := t.getBusinessActionContext(branchResource.Xid, branchResource.BranchId, branchResource.ResourceId, branchResource.ApplicationData)
+	businessActionContext, err := t.businessActionContextOf(branchResource)
+	if err != nil {
+		// the application data cannot be read: the user method is not called and the failure is
+		// reported to the tc server (as the java client does) instead of panicking in the processor
+		return branch.BranchStatusPhasetwoRollbackFailedRetryable, err
+	}
 
 	// to set up the fence phase
 	ctx = tm.InitSeataContext(ctx)
@@ -186,7 +207,7 @@ func (t *TCCResourceManager) BranchRollback(ctx context.Context, branchResource 
 	tm.SetFencePhase(ctx, enum.FencePhaseRollback)
 	tm.SetBusinessActionContext(ctx, businessActionContext)
 
-	_, err := tccResource.TwoPhaseAction.Rollback(ctx, businessActionContext)
+	_, err = tccResource.TwoPhaseAction.Rollback(ctx, businessActionContext)
 	if err != nil {
 		return branch.BranchStatusPhasetwoRollbackFailedRetryable, err
 	}
